@@ -3,6 +3,7 @@
 #   ./check.sh <property-id> quick|thorough     run the check of one property (rebuilds against /repo's working tree)
 #   ./check.sh replay <file>                    re-run one replay file (strict: known findings count as violations)
 #   ./check.sh build                            build only (setup)
+#   ./check.sh fuzz-replay <part> <file>        re-run one libFuzzer input / crash artifact through the part's decoder + oracle
 # exit 0: held on everything explored; 1: VIOLATION (line printed); 2: inconclusive / harness problem
 if [ "$1" = "replay" ] && [ -n "$2" ]; then set -- replay "$(realpath "$2")"; fi
 cd "$(dirname "$0")/harness" || exit 2
@@ -22,6 +23,7 @@ if [ "$1" = "build" ] || [ "$1" = "C15" ] || [ "$1" = "replay" ]; then
     fi
 fi
 [ "$1" = "build" ] && exit 0
+if [ "$1" = "fuzz-replay" ]; then exec ./target/release/rmv fuzz-once "$2" "$(realpath "$3")"; fi
 if [ "$1" = "replay" ]; then
     if grep -q '"property": *"C15"' "$2"; then
         RMV_BUILD=checked ./target/checked/rmv "$@"; rc1=$?
@@ -51,8 +53,15 @@ a['wall_s'] += b['wall_s']
 json.dump(a, open(V+'/evidence/C15.json', 'w'), indent=1)
 PY
     rm -f "$VERIF_DIR/evidence/C15-checked.json"
-    [ $rc1 -eq 1 ] || [ $rc2 -eq 1 ] && exit 1
-    [ $rc1 -ne 0 ] && exit $rc1
-    exit $rc2
+    rc=$rc2; [ $rc1 -ne 0 ] && rc=$rc1
+    [ $rc1 -eq 1 ] || [ $rc2 -eq 1 ] && rc=1
+else
+    ./target/release/rmv check "$@"; rc=$?
 fi
-exec ./target/release/rmv check "$@"
+# thorough tier: coverage-guided campaigns (libFuzzer) over the controlled-schedule / sequential parts follow the generated search
+if [ "$2" = "thorough" ] && [ $rc -ne 1 ] && [ -z "$VERIF_NO_FUZZ" ]; then
+    "$VERIF_DIR/fuzz_campaign.sh" "$1"; frc=$?
+    [ $frc -eq 1 ] && rc=1
+    [ $frc -eq 2 ] && [ $rc -eq 0 ] && rc=2
+fi
+exit $rc
